@@ -11,6 +11,8 @@ class TypeChecker:
     def __init__(self, diag, context):
         self.diag = diag
         self.context = context
+        self.checked_constants = set()
+        self.got_types = set()
 
     def check(self):
         """Check everything"""
@@ -28,9 +30,7 @@ class TypeChecker:
                 self.check_type(typ)
 
             for con in module.constants:
-                self.check_type(con.typ)
-                self.check_expr(con.value)
-                con.value = self.do_coerce(con.value, con.typ)
+                self.check_constant(con)
 
             # Check global variables:
             for var in module.variables:
@@ -49,6 +49,24 @@ class TypeChecker:
 
         if not self.module_ok:
             raise SemanticError("Errors occurred", None)
+
+    def check_constant(self, con):
+        """Check a constant, and give the expression of its value its types.
+
+        This happens when the module of the constant is checked, or when
+        the constant is used for the first time, as its value can be
+        needed right away (for the size of an array).
+        """
+        if con in self.checked_constants:
+            return
+        self.checked_constants.add(con)
+
+        # This can happen halfway the check of a type, keep those marks:
+        marks = self.got_types
+        self.check_type(con.typ)
+        self.check_expr(con.value)
+        con.value = self.do_coerce(con.value, con.typ)
+        self.got_types = marks
 
     def check_type(self, typ, first=True, byname=False):
         """Check a type.
@@ -474,6 +492,7 @@ class TypeChecker:
             expr.lvalue = True
             expr.typ = target.typ
         elif isinstance(target, ast.Constant):
+            self.check_constant(target)
             expr.lvalue = False
             expr.typ = target.typ
         else:
@@ -489,6 +508,7 @@ class TypeChecker:
                 expr.lvalue = True
                 expr.typ = target.typ
             elif isinstance(target, ast.Constant):
+                self.check_constant(target)
                 expr.lvalue = False
                 expr.typ = target.typ
             else:
